@@ -153,6 +153,8 @@ class Spec:
     def ev(self, o):
         if o.term:
             return True
+        if getattr(o, "undetermined", False):
+            raise Uncertain()             # a cost-convergence condition the property says nothing about, at any depth
         if o.polled:
             if o.kind == "timed" and self.fake and self.synced:
                 v = self.timed_value(o)
@@ -560,6 +562,10 @@ class Spec:
                 o.exactable = False
         else:
             o.exactable = False
+            if prev_f < 0 or prev_f != prev_f:
+                # rounded / non-finite arithmetic around a negative average (where the band test and the literal
+                # reading part, F481): no demand from here on, model comparison only
+                o.undetermined = True
         if fire:
             o.term = True
 
